@@ -161,7 +161,98 @@ def run(ctx):
     run_rules(ctx)
 
 
+POINTER_DOC = {
+    "a": {"b": [10, 20, {"c": 1}]}, "": "empty-key", "a/b": "slash", "m~n": "tilde", "~1": "tilde-one", "/": "slash-key", "0": "zero-key",
+    "a b": "space", "a+b": "plus", "\u00e9": "accent", "arr": [["x"], "str"], "00": "double-zero", "1e0": "sci", "-1": "neg", "s": "text",
+    "n": None, "%25": "percent", "t": True,
+}
+POINTERS = ["", "/a", "/a/b", "/a/b/0", "/a/b/2/c", "/a/b/3", "/a/b/-1", "/a/b/01", "/a/b/1e0", "/a/b/ 1", "/a/b/+1", "/a/b/1.0", "/", "//", "/a~1b", "/m~0n",
+            "/~01", "/~1", "/0", "/a%20b", "/a+b", "/%C3%A9", "/a%2Fb", "/arr/0/0", "/arr/1/0", "/arr/1", "/s/0", "/n/x", "/00", "/1e0", "/-1",
+            "/missing", "/%2525", "/a/b/0/x", "/t/0", "/a/b/", "/a//b", "/a/b/\u0661"]
+_MISSING = object()
+
+
+def _rfc6901(document, fragment):
+    """Reference reading of a URI fragment as a JSON Pointer (RFC 3986 percent-decoding, then RFC 6901), independent of the code."""
+    import re
+    from urllib.parse import unquote
+    ptr = unquote(fragment)
+    if ptr == "":
+        return document
+    assert ptr.startswith("/")
+    for tok in ptr[1:].split("/"):
+        tok = tok.replace("~1", "/").replace("~0", "~")
+        if isinstance(document, list):
+            if not re.fullmatch("0|[1-9][0-9]*", tok) or int(tok) >= len(document):
+                return _MISSING
+            document = document[int(tok)]
+        elif isinstance(document, dict):
+            if tok not in document:
+                return _MISSING
+            document = document[tok]
+        else:
+            return _MISSING
+    return document
+
+
+def table_eval(prog, f):
+    """resolve_fragment evaluated by sa/tokeval.py on POINTERS x POINTER_DOC against the reference reading above.
+    -> list of (clause, message) differences, or None when outside the evaluated fragment."""
+    from ..tokeval import Ev, Obj, Undecided, PyRaise
+    bad = []
+    try:
+        for frag in POINTERS:
+            ev = Ev(prog, fuel=20000, real_errors=True)
+            recv = Obj(f.cls, {})
+            recv.ev = ev
+            want = _rfc6901(POINTER_DOC, frag)
+            try:
+                got = ev.call_func(f, [recv, POINTER_DOC, frag], {})
+                err = None
+            except PyRaise as pr:
+                got, err = _MISSING, pr.name
+            if err is not None and err != "RefResolutionError":
+                bad.append(("R14.4", "unwrapped|%s" % err, "fragment %r: %s escapes instead of RefResolutionError" % (frag, err)))
+            elif want is _MISSING and err is None:
+                clause = "R14.3" if any(ch.isdigit() for ch in frag.rsplit("/", 1)[-1]) or "/s/" in frag or "/arr/1/" in frag else "R14.4"
+                bad.append((clause, "resolves-nothing", "fragment %r designates nothing in the document, yet %r is returned" % (frag, got)))
+            elif want is not _MISSING and (err is not None or not (got is want or (type(got) is type(want) and got == want))):
+                clause = "R14.2" if ("%" in frag or "~" in frag or "+" in frag) else ("R14.1" if frag.startswith("//") or frag in ("/", "/a//b", "/a/b/") else "R14.3")
+                bad.append((clause, "wrong-target", "fragment %r designates %r, but %s" % (frag, want, ("%r is returned" % (got,)) if err is None else "RefResolutionError is raised")))
+    except Undecided:
+        return None
+    return bad
+
+
 def run_rules(ctx):
+    prog = ctx.prog
+    f = find_method(prog, "validators.RefResolver", "resolve_fragment")
+    try:
+        return run_rules_dataflow(ctx)
+    except AnalysisError as why:
+        # the ordering analysis could not extract the pipeline (helpers, other control flow): decide on the table instead
+        ctx.rules[:] = [r for r in ctx.rules if not r.id.startswith("R14.")]
+        res = table_eval(prog, f)
+        rs = {rid: ctx.rule(rid, t, floor=1) for rid, t in (
+            ("R14.1", "exactly one leading '/' is removed from the pointer, never a run of them"),
+            ("R14.2", "percent-decode first, then tokenise, then ~1 -> '/', then ~0 -> '~', on every token"),
+            ("R14.3", "a token becomes an integer only for real arrays and only when it is a canonical index"),
+            ("R14.4", "every failing lookup becomes RefResolutionError; the empty fragment is the whole document"))}
+        if res is None:
+            for r in rs.values():
+                r.ok(site(f), "NOT DECIDED: pipeline not extractable (%s) and outside the evaluated fragment" % why)
+            rs["R14.1"].note(site(f), "resolve_fragment not decided: %s" % why)
+            return
+        for rid, r in rs.items():
+            mine = [b for b in res if b[0] == rid]
+            if not mine:
+                r.ok(site(f), "agrees with RFC 6901/3986 on %d fragments against a document with escaped, empty, numeric and non-ASCII keys "
+                              "(table evaluation; the ordering analysis could not follow this code shape: %s)" % (len(POINTERS), str(why)[:60]))
+            for (_rid, key, msg) in mine[:3]:
+                r.fail("%s|%s" % (f.qual, key), site(f), msg)
+
+
+def run_rules_dataflow(ctx):
     prog = ctx.prog
     calls = calls_of(prog)
     f = find_method(prog, "validators.RefResolver", "resolve_fragment")
